@@ -1,10 +1,39 @@
 import PyxModel.Sexp
+import PyxModel.Oal.LexGen
 
-/-! driver commands of property C13 (stub: no command yet) -/
+/-! driver commands of property C13
+
+    (c13-lex "lexdata" (i j) (i j) ...)
+      -> ((tokens) (spans))
+         tokens: (KIND "lexeme" start stop line endLine) for every token the lexer model returns
+         spans : for each pair (i j) of token indexes, what `set_positional_info` records for a node whose
+                 first token is token i and whose last token is token j:
+                 (start_stream start_line start_column end_stream end_line end_column "character_stream"),
+                 or `none` when an index is out of range
+-/
 namespace Pyx.Driver.C13
-open Pyx Pyx.Sexp
+open Pyx Pyx.Sexp Pyx.Oal
+
+def tokSexp (t : Tok) : Sexp :=
+  list [sym (String.ofList t.kind), str (String.ofList t.lexeme), ofNat t.start, ofNat t.stop, ofNat t.line,
+        ofNat t.endLine]
+
+def spanSexp (text : List Char) (toks : Array Tok) : Sexp → Sexp
+  | list [int i, int j] =>
+    match toks[i.toNat]?, toks[j.toNat]? with
+    | some a, some b =>
+      let p := spanOf text a b
+      list [ofNat p.startStream, ofNat p.startLine, int p.startColumn, ofNat p.endStream, ofNat p.endLine,
+            int p.endColumn, str (String.ofList (streamOf text a b))]
+    | _, _ => sym "none"
+  | _ => sym "bad-span"
 
 def handle : List Sexp → Option Sexp
+  | sym "c13-lex" :: str text :: spans =>
+    let cs := text.toList
+    let toks := lex cs
+    let arr := toks.toArray
+    some (list [list (toks.map tokSexp), list (spans.map (spanSexp cs arr))])
   | _ => none
 
 end Pyx.Driver.C13
